@@ -1,3 +1,36 @@
-From RV Require Import Val Syntax Rho Offline Online.
-Theorem C02_placeholder : True. Proof. exact I. Qed.
-Print Assumptions C02_placeholder.
+(* C02 — the i-th update() of the discrete-time online monitor returns the
+   offline robustness at sample i, for every forest of past-time
+   specifications (so also when the same sub-formula text occurs more than
+   once: the dictionary is keyed by the formula).  Property theorems only. *)
+From Coq Require Import List Arith ZArith.
+From RV Require Import Val Syntax Rho Offline ListFacts OfflineCorrect Online OnlineCorrect ExtZ.
+Import ListNotations.
+
+(* every reachable monitor state: feeding rows 0..len-1 from a fresh monitor *)
+Theorem C02_online :
+  forall (VS : Val) (AR : Arith VS) (pk : formula -> formula -> pkind)
+         (w : trace) (n : nat) (F : list formula) (len : nat),
+    F <> [] -> (forall p, In p F -> past_only p = true /\ wf_bounds p = true) ->
+    snd (mon_run AR pk F dict_init w 0 len) = tab (rho AR pk (last F (Const bot)) w n) len.
+Proof. exact @online_correct. Qed.
+Print Assumptions C02_online.
+
+(* incremental = batch *)
+Theorem C02_online_offline :
+  forall (VS : Val) (AR : Arith VS) (pk : formula -> formula -> pkind)
+         (w : trace) (n : nat) (p : formula),
+    1 <= n -> past_only p = true -> wf_bounds p = true -> no_precedes p = true -> wf_trace p w n ->
+    snd (mon_run AR pk [p] dict_init w 0 n) = eval_off AR pk p w n.
+Proof. exact @online_offline. Qed.
+Print Assumptions C02_online_offline.
+
+Example C02_nonvacuous :
+  let q : @formula ExtZVal := SPrev (Pred CGeq (Var 0) (Const (Fin 1))) in
+  let p := And (Since q (OnceT 1 2 q)) (Not q) in
+  let w := [[Fin 3; Fin 0; Fin (-1); Fin 4; Fin 2]] in
+  ([p] <> [] /\ (forall x, In x [p] -> past_only x = true /\ wf_bounds x = true)) /\
+  snd (mon_run ExtZArith (fun _ _ => PStd) [p] dict_init w 0 5) = eval_off ExtZArith (fun _ _ => PStd) p w 5.
+Proof.
+  cbv zeta. split; [split; [discriminate|]|vm_compute; reflexivity].
+  intros x [<-|[]]. split; reflexivity.
+Qed.
